@@ -19,9 +19,9 @@ template <unsigned N, unsigned L> struct SymLTS {
     }
   }
   bool has(unsigned a, unsigned q, unsigned r) const { return early[a][q][r] | late[a][q][r]; }
-  template <class LTS> void build(LTS& lts) const {
-    for (unsigned a = 0; a < L; ++a) for (unsigned q = 0; q < N; ++q) for (unsigned r = 0; r < N; ++r) if (early[a][q][r]) lts.addTransition(q, a, r);
-    for (unsigned a = 0; a < L; ++a) for (unsigned q = 0; q < N; ++q) for (unsigned r = 0; r < N; ++r) if (late[a][q][r]) lts.addTransition(q, a, r);
+  template <class LTS> void build(LTS& lts, unsigned off = 0) const {      // off: the states get the numbers off .. off+N-1
+    for (unsigned a = 0; a < L; ++a) for (unsigned q = 0; q < N; ++q) for (unsigned r = 0; r < N; ++r) if (early[a][q][r]) lts.addTransition(off + q, a, off + r);
+    for (unsigned a = 0; a < L; ++a) for (unsigned q = 0; q < N; ++q) for (unsigned r = 0; r < N; ++r) if (late[a][q][r]) lts.addTransition(off + q, a, off + r);
   }
   // 1 + the largest state number that occurs in an edge (0 if there is no edge)
   unsigned usedStates() const {
